@@ -1188,6 +1188,8 @@ type hv struct {
 	// raw attribute text written before / after the regular attributes (namespace
 	// declarations, prefixed attributes); lang: the value of a genuine xml:lang among them
 	pre, post, lang string
+	// ownPrefixed: `name` is this framing's own open element in a prefixed spelling
+	ownPrefixed bool
 }
 
 func (h hv) render(ws bool) string {
@@ -1239,7 +1241,7 @@ func (h hv) render(ws bool) string {
 }
 
 func (h hv) facts(ws bool) hdrFacts {
-	f := hdrFacts{open: h.open && h.streamErr == "", streamErr: h.streamErr, version: h.version, xmlns: h.xmlns, id: h.id, to: h.to, from: h.from, junk: h.junk, lang: h.lang}
+	f := hdrFacts{open: (h.open || h.ownPrefixed) && h.streamErr == "", streamErr: h.streamErr, version: h.version, xmlns: h.xmlns, id: h.id, to: h.to, from: h.from, junk: h.junk, lang: h.lang}
 	if h.noVersion {
 		f.version = ""
 	}
@@ -1358,6 +1360,28 @@ func headerVariants(ws bool, from, to string) []string {
 	// a genuine xml:lang twice: the last one counts
 	add(func(h *hv) { h.post = " xml:lang='en' xml:lang='de'"; h.lang = "de" })
 	add(func(h *hv) { h.post = " xml:lang='en'"; h.lang = "en" })
+	// the OTHER framing's open element, in every spelling, with everything else in order:
+	// it is not the stream-open element of this framing
+	for _, n := range []string{
+		"<f:open xmlns:f='" + nsFraming + "' xmlns='jabber:client'",
+		"<f:open xmlns:f='" + nsFraming + "'",
+		"<open xmlns='" + nsFraming + "'",
+		"<stream:stream xmlns:stream='" + nsStream + "' xmlns='jabber:client'",
+		"<s:stream xmlns:s='" + nsStream + "' xmlns='jabber:client'",
+		"<stream xmlns='" + nsStream + "'",
+		"<stream:stream xmlns:stream='" + nsStream + "' xmlns='" + nsFraming + "'",
+	} {
+		n := n
+		isWSOpen := strings.Contains(n, "open")
+		if isWSOpen == ws {
+			// this framing's own element: covered by the regular variants (the prefixed
+			// spelling of the own element is a valid header)
+			if !(ws && strings.HasPrefix(n, "<f:open")) {
+				continue
+			}
+		}
+		add(func(h *hv) { h.open = false; h.name = n; h.ownPrefixed = ws && isWSOpen })
+	}
 	for _, n := range []string{"<stream xmlns='jabber:client'", "<stream:features xmlns:stream='" + nsStream + "'", "<open xmlns='" + nsFraming + "'", "<stream:stream xmlns:stream='urn:wrong' xmlns='jabber:client'", "<close xmlns='" + nsFraming + "'", "<iq xmlns='jabber:client'"} {
 		n := n
 		add(func(h *hv) { h.open = false; h.name = n })
